@@ -414,17 +414,8 @@ var probes = []string{"{% vboth %}", "{{ 1|vboth }}", "{% filter vboth %}x{% end
 func callRefuses(f func() error) (refused bool, bad string) {
 	defer func() {
 		if p := recover(); p != nil {
-			if _, ok := p.(*pongo2.Error); ok {
-				refused = true
-				return
-			}
-			if e, ok := p.(error); ok {
-				if _, ok2 := e.(*pongo2.Error); ok2 {
-					refused = true
-					return
-				}
-			}
-			bad = fmt.Sprint("panic: ", p)
+			// every operation of the alphabet returns an error: a refusal is that error, not a panic
+			bad = fmt.Sprint("panic instead of the returned error: ", p)
 		}
 	}()
 	return f() != nil, ""
